@@ -1,2 +1,3 @@
 pub mod data;
 pub mod grammar;
+pub mod faults;
